@@ -981,3 +981,16 @@ Proof.
       { destruct (grows_nth _ _ _ _ _ _ H2 Ht) as [b [Hb Hl]]. congruence. }
       symmetry. apply (completed_final _ _ Hc L).
 Qed.
+
+(* rows that a legal step ADDS are fresh: NOT_STARTED, every task NOT_STARTED *)
+Lemma grows_added {A} (R : A -> A -> Prop) F l l' i x :
+  grows R F l l' -> nth_error l i = None -> nth_error l' i = Some x -> F x.
+Proof.
+  intros H. revert i. induction H as [added Ha|a b l l' Hab Hg IH]; intros i Hn Hn'.
+  - rewrite Forall_forall in Ha. apply Ha. eapply nth_error_In. exact Hn'.
+  - destruct i as [|i]; simpl in *; [discriminate|]. apply IH with i; assumption.
+Qed.
+
+Lemma legal_added_fresh l w l' w' i st' :
+  legal l w l' w' -> nth_error l i = None -> nth_error l' i = Some st' -> stage_fresh st'.
+Proof. intros [H _]. apply (grows_added _ _ _ _ _ _ H). Qed.
